@@ -60,6 +60,16 @@ GroupSet(s) ==
           conds : {<<Entry(0, <<c>>)>> : c \in AllOpConds}
                   \cup {<<Entry(0, <<c, d>>)>> : c \in AllOpConds, d \in [arg : {1}, op : {"Equal"}, val : {1}]},
           act : {"errno", "trap"}]
+    [] s = "subsume" ->    \* C03: the same syscall with conditions in two groups, where one group's list is a part of the other's
+                           \* (a stricter and a more general rule for one syscall, in either order)
+         LET c1 == [arg |-> 0, op |-> "Equal", val |-> 1]
+             c2 == [arg |-> 0, op |-> "GreaterThan", val |-> 1]
+             d1 == [arg |-> 1, op |-> "Equal", val |-> 1]
+             d2 == [arg |-> 1, op |-> "BitsSet", val |-> 2]
+             ls == {<<c1>>, <<c2>>, <<d1>>, <<d2>>, <<c1, d1>>, <<c1, d2>>, <<c2, d1>>, <<d1, c1>>, <<c2, d2>>} IN
+         [names : {<<>>},
+          conds : {<<Entry(0, l)>> : l \in ls} \cup {<<Entry(0, l), Entry(0, m)>> : l \in {<<c1, d1>>, <<c2>>}, m \in {<<d2>>, <<c1>>}},
+          act : {"errno", "trap"}]
     [] s = "mergeops" ->   \* C02 / C03: two single-condition entries of one syscall on the same argument (alternatives), every pair of operations
          [names : {<<>>, <<1>>},
           conds : {<<Entry(0, <<c>>), Entry(0, <<d>>)>> : c \in [arg : {0}, op : OpSet, val : {1, 2}], d \in [arg : {0}, op : OpSet, val : {0, 1, 2, 3}]},
@@ -86,7 +96,7 @@ GroupSet(s) ==
 MaxGroups(s) ==
   CASE s \in {"groups"} -> 3
     [] s \in {"groups2"} -> 2
-    [] s \in {"many", "manywide"} -> 2
+    [] s \in {"many", "manywide", "subsume"} -> 2
     [] OTHER -> 1
 Defaults(s) ==
   CASE s = "actions" -> NamedActions
@@ -230,9 +240,9 @@ LongListShapes(c) ==
   {<<s1, NeList(c, 100)>>, <<NeList(c, 100), s1>>, <<s1, NeList(c, 100), s2>>, <<s1, s2, NeList(c, 100)>>, <<NeList(c, 100), NeList(c, 50)>>, <<NeList(c, 100)>>}
 \* "shortlist" is the same family at small sizes (no program above 255 instructions): C06 compares the two
 LongListPolicies(ns, cs) ==
-  UNION {{Mk("allow", TRUE, << LG(IdxRange(0, n - 1), "kill_process"),
-                               [names |-> <<>>, conds |-> [j \in 1..Len(sh) |-> Entry(NSys - 2, sh[j])] \o <<Entry(NSys - 1, <<DC(5, o, 7)>>)>>, act |-> "errno"] >>) :
-            n \in ns, sh \in LongListShapes(c), o \in {"NotEqual", "Equal"}} : c \in cs}
+  UNION {{Mk(d, TRUE, << LG(IdxRange(0, n - 1), "kill_process"),
+                         [names |-> <<>>, conds |-> [j \in 1..Len(sh) |-> Entry(NSys - 2, sh[j])] \o <<Entry(NSys - 1, <<DC(5, o, 7)>>)>>, act |-> "errno"] >>) :
+            n \in ns, sh \in LongListShapes(c), o \in {"NotEqual", "Equal"}, d \in {"allow", "errno"}} : c \in cs}
 
 \* the kernel's limit (C07: every defect-free policy that fits 4096 instructions is accepted): 993 single-condition lists
 \* for one syscall (4 instructions each) in one group plus n names in a second group put the program size at 4090..4101
@@ -260,7 +270,7 @@ EventSeq(s) ==
          SetToSeq({Ev(ar, nr, NoArgs) : ar \in {"own", "other"}, nr \in 0..NrMax})
     [] s \in {"groups2", "chain"} ->
          SetToSeq({Ev(ar, nr, NoArgs) : ar \in {"own", "other"}, nr \in 0..NrMax})
-    [] s \in {"rich", "merge", "many", "manywide", "allops", "defects", "defects2", "deep", "pairs", "mergeops"} ->
+    [] s \in {"rich", "merge", "many", "manywide", "allops", "defects", "defects2", "deep", "pairs", "mergeops", "subsume"} ->
          SetToSeq({Ev(ar, nr, a) : ar \in {"own", "other"},
                                    nr \in Sys \cup {NSys, X32Bit, X32Bit + 1}, a \in Args2})
     [] s \in {"long1", "long2", "longconds", "klong"} -> LongEvents(s)
